@@ -263,6 +263,60 @@ func (ro *RedisOutput) SetRunId(ctx context.Context, id string) error {
 	}, 3, time.Second*4, 0.3)
 }
 
+// ResetRunId is SetRunId for a full resynchronisation : the target will be loaded from a snapshot of the
+// history id, so the position stored under the previous run id is not carried over to id (a restart before the
+// snapshot has been replayed would otherwise resume the new history from an offset of the old one). The
+// checkpoint of id starts without a position, then the one of the previous id is removed.
+func (ro *RedisOutput) ResetRunId(ctx context.Context, id string) error {
+	old := ro.cfg.RunId
+	if old == id {
+		return nil
+	}
+	if ro.bisyncEnabled() {
+		// the bidirectional namespace keeps its own recovery records next to the checkpoint
+		return ro.SetRunId(ctx, id)
+	}
+
+	return util.RetryLinearJitter(ctx, func() error {
+		cli, err := ro.NewRedisConn(ctx)
+		if err != nil {
+			return err
+		}
+		defer cli.Close()
+		err = ro.resetCheckpoint(cli, id, old)
+		ro.logger.Log(err, "ResetCheckpoint : cp(%s), runId(%s,%s), err(%v)", ro.cfg.CheckpointName, id, old, err)
+		if err != nil {
+			return err
+		}
+		ro.cfg.RunId = id
+		return nil
+	}, 3, time.Second*4, 0.3)
+}
+
+func (ro *RedisOutput) resetCheckpoint(cli client.Redis, id string, old string) error {
+	// whatever was stored under id before describes another load of the target
+	if err := checkpoint.DelCheckpoint(cli, ro.cfg.CheckpointName, id); err != nil {
+		return err
+	}
+	if err := redis.SelectDB(cli, 0); err != nil {
+		return err
+	}
+	cp := &checkpoint.CheckpointInfo{Key: ro.cfg.CheckpointName, RunId: id, Offset: -1, Version: config.Version}
+	if err := checkpoint.SetCheckpoint(cli, cp); err != nil {
+		return err
+	}
+	if err := checkpoint.SetCheckpointHash(cli, id, ro.cfg.CheckpointName); err != nil {
+		return err
+	}
+	if old == "" || old == "?" {
+		return nil
+	}
+	if err := checkpoint.DelCheckpoint(cli, ro.cfg.CheckpointName, old); err != nil {
+		return err
+	}
+	return checkpoint.DelCheckpointHash(cli, old)
+}
+
 func (ro *RedisOutput) Send(ctx context.Context, reader ChannelReader) error {
 	if reader.IsAof() {
 		return ro.SendAof(ctx, reader)
